@@ -43,6 +43,17 @@ def _enum_of_names(repo, names):
 
 
 def _src(repo, ti, e):
+    if isinstance(e, ast.Call) and isinstance(e.func, ast.Name) and e.func.id in ti.mod.functions and e.func.id not in ('str', 'convert_deal'):
+        # a helper of the writer module: look through it when it is a single `return <expr>`; otherwise what it serialises
+        # cannot be read off its signature (Dict[str, ...] hides which library type was stringified) - no verdict
+        fn = ti.mod.functions[e.func.id]
+        body = [b for b in fn.body if not (isinstance(b, ast.Expr) and isinstance(b.value, ast.Constant))]
+        if len(body) == 1 and isinstance(body[0], ast.Return) and body[0].value is not None and len(fn.args.args) == len(e.args) and not e.keywords:
+            from ..paths import subst
+            inl = subst(clone(body[0].value), {a.arg: v for a, v in zip(fn.args.args, e.args)})
+            return _src(repo, ti, _StripSerialisers().visit(inl))
+        raise AnalysisError('C12.R2', f'{ti.mod.name.split(".")[-1]}:{e.func.id}', f'cannot see which library values the helper `{e.func.id}` serialises '
+                                                                                     f'(not a single return expression)')
     if isinstance(e, ast.IfExp):
         a, b = _src(repo, ti, e.body), _src(repo, ti, e.orelse)
         if a == NONE:
